@@ -200,6 +200,22 @@ add("C10",
     "several set errors apply any applicable errno is accepted; interior nodes may answer ENOENT or EACCES. Odd index spellings are checked for "
     "memory safety only. No environment deviations (input enumeration).", "DESIGN.md 2/C10", engine="enumerator")
 
+add("C18",
+    "explicit enumeration (breadth-first, no merging) of all credential-update/connect histories up to a depth, each replayed on fresh state in "
+    "a forked child against a virtual-file-system reference model",
+    "Every operation sequence up to depth d over four alphabets is run on the real library: main (16 ops: equal-size in-place rewrite with fresh / "
+    "preserved mtime, rename-over, directory- and file-level symlink flips, XCM_TLS_CERT switch, server with default/by-file/by-value "
+    "credentials, five client/accept configuration combinations, close connection, close server), files (the file-update part one level deeper), "
+    "split (by-value configurations whose items split equal bytes differently, and one that differs only in its trust anchors), and 29 "
+    "bad-material families (missing, empty, garbage, truncated, dangling symlink, directory, mismatching key; by file, by value or in the default "
+    "directory; on connect / server / accept). Oracle: the identity each side sees (subject key id, CN, names) equals what was designated at call "
+    "time; a connection is established iff the designated chains and trust roots verify; every open connection keeps its identity and keeps "
+    "passing traffic after every op; bad material => EPROTO; live SSL_CTX objects never exceed open sockets and are 0 at teardown. quick: depths "
+    "3-4, 6,823 histories; thorough: depths 4-6, 513,015 histories / 2.56 M oracle-checked operations.",
+    "Single thread; default environment (no I/O deviations). mtimes are set explicitly (the preserved-mtime rewrite is placed at a later clock "
+    "tick). Rename-over always gets a fresh mtime (inode recycling not explored). EACCES is unreachable as root. OpenSSL's PEM parsing trusted. "
+    "Known finding: XCM_TLS_CERT at accept time is ignored (known_findings.json).", "DESIGN.md 2/C18", engine="enumerator")
+
 
 def main():
     man = dict(
